@@ -47,13 +47,9 @@ Definition push_field (cfg : sconfig) (index : option N) (placeholder : str) : s
 (* prev_end: None = -1 (start of the value / a FunctionCall, which has no 'end');
    Some None = Python None (a token made by the resolver); Some (Some n) = n *)
 Definition same_pos (start : option nat) (prev_end : option (option nat)) : bool :=
-  match prev_end with
-  | None => false
-  | Some e => match start, e with
-              | None, None => true
-              | Some a, Some b => Nat.eqb a b
-              | _, _ => false
-              end
+  match start, prev_end with
+  | Some a, Some (Some b) => Nat.eqb a b
+  | _, _ => false                  (* repaired: a Field without a position is never adjacent *)
   end.
 
 Fixpoint output_token (cfg : sconfig) (token : cval) {struct token} : str :=
